@@ -21,18 +21,20 @@ def Act.wf : Act → Prop
   | .single l => l.kind = Kind.other ∧ 0 < l.len
   | .withDoc a d => a.kind ≠ Kind.other ∧ 0 < a.len ∧ 0 < d.len
 
-def Act.status : Act → Status
+def Act.status (env : Env) : Act → Status
   | .single _ => .failed
   | .withDoc a d =>
     if a.kind = Kind.update then .failed
+    else if env.valid a.idx = false then .failed
     else if maxRecordSize ≤ d.len then .tooLarge
     else if d.docOk then .created else .failed
 
-def Act.storedOf : Act → List Nat
+def Act.storedOf (env : Env) : Act → List (Nat × Nat)
   | .single _ => []
-  | .withDoc a d => if a.kind ≠ Kind.update ∧ d.len < maxRecordSize ∧ d.docOk then [d.id] else []
+  | .withDoc a d =>
+    if a.kind ≠ Kind.update ∧ env.valid a.idx = true ∧ d.len < maxRecordSize ∧ d.docOk then [(a.idx, d.id)] else []
 
-def emptyLine : Line := { kind := .other, len := 0, docOk := false, id := 0 }
+def emptyLine : Line := { kind := .other, len := 0, docOk := false, id := 0, idx := 0 }
 
 def tailOf (dangling : Option Line) (nl : Bool) : List Line :=
   dangling.toList ++ (if nl then [emptyLine] else [])
@@ -41,13 +43,13 @@ def tailItems (dangling : Option Line) : List Status :=
   (dangling.map (fun _ => Status.failed)).toList
 
 /-- `s'` extends `s` by the items `its`, the stored ids `st`, and the corresponding error flag -/
-def Good (s s' : St) (its : List Status) (st : List Nat) : Prop :=
-  s'.items = s.items ++ its ∧ s'.stored = s.stored ++ st ∧
+def Good (s s' : St) (its : List Status) (st : List (Nat × Nat)) : Prop :=
+  s'.items = s.items ++ its ∧ s'.ples = s.ples ++ st ∧
   s'.overallError = (s.overallError || its.any (· ≠ Status.created))
 
 theorem Good.refl (s : St) : Good s s [] [] := by simp [Good]
 
-theorem Good.trans {s s' s'' : St} {i1 i2 : List Status} {t1 t2 : List Nat}
+theorem Good.trans {s s' s'' : St} {i1 i2 : List Status} {t1 t2 : List (Nat × Nat)}
     (h1 : Good s s' i1 t1) (h2 : Good s' s'' i2 t2) : Good s s'' (i1 ++ i2) (t1 ++ t2) := by
   obtain ⟨a1, b1, c1⟩ := h1
   obtain ⟨a2, b2, c2⟩ := h2
@@ -56,57 +58,63 @@ theorem Good.trans {s s' s'' : St} {i1 i2 : List Status} {t1 t2 : List Nat}
   · rw [b2, b1, List.append_assoc]
   · rw [c2, c1, List.any_append, Bool.or_assoc]
 
-theorem loop_nil (f : Nat) (s : St) : loop f s [] = s := by
+theorem loop_nil (env : Env) (f : Nat) (s : St) : loop env f s [] = s := by
   cases f <;> simp [loop, readLine, remEmpty]
 
-theorem loop_emptyLine (f : Nat) (s : St) : loop f s [emptyLine] = s := by
+theorem loop_emptyLine (env : Env) (f : Nat) (s : St) : loop env f s [emptyLine] = s := by
   cases f <;> simp [loop, readLine, remEmpty, emptyLine]
 
-theorem loop_tail_none (f : Nat) (s : St) (nl : Bool) : loop f s (tailOf none nl) = s := by
+theorem loop_tail_none (env : Env) (f : Nat) (s : St) (nl : Bool) : loop env f s (tailOf none nl) = s := by
   cases nl
-  · simpa [tailOf] using loop_nil f s
-  · simpa [tailOf] using loop_emptyLine f s
+  · simpa [tailOf] using loop_nil env f s
+  · simpa [tailOf] using loop_emptyLine env f s
 
 /-- an iteration on a non-empty line is `stepAction` -/
-theorem loop_succ (l : Line) (hl : 0 < l.len) (f : Nat) (s : St) (rest : List Line) :
-    loop (f+1) s (l :: rest) = loop f (stepAction s l rest).1 (stepAction s l rest).2 := by
+theorem loop_succ (env : Env) (l : Line) (hl : 0 < l.len) (f : Nat) (s : St) (rest : List Line) :
+    loop env (f+1) s (l :: rest) = loop env f (stepAction env s l rest).1 (stepAction env s l rest).2 := by
   have hne : (l.len == 0) = false := by simp; omega
   simp [loop, readLine, hne]
 
 /-- a one-line action (kind `other`) yields one `failed` item and consumes one line -/
-theorem stepAction_single (l : Line) (hk : l.kind = Kind.other) (s : St) (rest : List Line) :
-    (stepAction s l rest).2 = rest ∧ Good s (stepAction s l rest).1 [Status.failed] [] := by
+theorem stepAction_single (env : Env) (l : Line) (hk : l.kind = Kind.other) (s : St) (rest : List Line) :
+    (stepAction env s l rest).2 = rest ∧ Good s (stepAction env s l rest).1 [Status.failed] [] := by
   simp [stepAction, hk, Good]
 
 /-- an index/create/update action with a non-empty document line -/
-theorem stepAction_withDoc (a d : Line) (hk : a.kind ≠ Kind.other) (hd : 0 < d.len)
+theorem stepAction_withDoc (env : Env) (a d : Line) (hk : a.kind ≠ Kind.other) (hd : 0 < d.len)
     (s : St) (rest : List Line) :
-    (stepAction s a (d :: rest)).2 = rest ∧
-    Good s (stepAction s a (d :: rest)).1 [(Act.withDoc a d).status] (Act.withDoc a d).storedOf := by
+    (stepAction env s a (d :: rest)).2 = rest ∧
+    Good s (stepAction env s a (d :: rest)).1 [(Act.withDoc a d).status env] ((Act.withDoc a d).storedOf env) := by
   have hne : (d.len == 0) = false := by simp; omega
   cases hkind : a.kind with
   | other => exact absurd hkind hk
   | update => simp [stepAction, hkind, readLine, Good, Act.status, Act.storedOf]
   | index =>
-    by_cases h1 : d.len < maxRecordSize
-    · have h1' : ¬ maxRecordSize ≤ d.len := by omega
-      cases h2 : d.docOk <;>
-        simp [stepAction, hkind, readLine, Good, Act.status, Act.storedOf, hne, h1, h1', h2]
-    · have h1' : maxRecordSize ≤ d.len := by omega
-      simp [stepAction, hkind, readLine, Good, Act.status, Act.storedOf, hne, h1, h1']
+    cases hv : env.valid a.idx with
+    | false => simp [stepAction, hkind, readLine, Good, Act.status, Act.storedOf, hne, hv]
+    | true =>
+      by_cases h1 : d.len < maxRecordSize
+      · have h1' : ¬ maxRecordSize ≤ d.len := by omega
+        cases h2 : d.docOk <;>
+          simp [stepAction, hkind, readLine, Good, Act.status, Act.storedOf, hne, hv, h1, h1', h2]
+      · have h1' : maxRecordSize ≤ d.len := by omega
+        simp [stepAction, hkind, readLine, Good, Act.status, Act.storedOf, hne, hv, h1, h1']
   | create =>
-    by_cases h1 : d.len < maxRecordSize
-    · have h1' : ¬ maxRecordSize ≤ d.len := by omega
-      cases h2 : d.docOk <;>
-        simp [stepAction, hkind, readLine, Good, Act.status, Act.storedOf, hne, h1, h1', h2]
-    · have h1' : maxRecordSize ≤ d.len := by omega
-      simp [stepAction, hkind, readLine, Good, Act.status, Act.storedOf, hne, h1, h1']
+    cases hv : env.valid a.idx with
+    | false => simp [stepAction, hkind, readLine, Good, Act.status, Act.storedOf, hne, hv]
+    | true =>
+      by_cases h1 : d.len < maxRecordSize
+      · have h1' : ¬ maxRecordSize ≤ d.len := by omega
+        cases h2 : d.docOk <;>
+          simp [stepAction, hkind, readLine, Good, Act.status, Act.storedOf, hne, hv, h1, h1', h2]
+      · have h1' : maxRecordSize ≤ d.len := by omega
+        simp [stepAction, hkind, readLine, Good, Act.status, Act.storedOf, hne, hv, h1, h1']
 
 /-- an index/create/update line whose document is missing (end of body, or only the trailing
 newline follows) -/
-theorem stepAction_dangling (l : Line) (hk : l.kind ≠ Kind.other) (nl : Bool) (s : St) :
-    (stepAction s l (if nl then [emptyLine] else [])).2 = [] ∧
-    Good s (stepAction s l (if nl then [emptyLine] else [])).1 [Status.failed] [] := by
+theorem stepAction_dangling (env : Env) (l : Line) (hk : l.kind ≠ Kind.other) (nl : Bool) (s : St) :
+    (stepAction env s l (if nl then [emptyLine] else [])).2 = [] ∧
+    Good s (stepAction env s l (if nl then [emptyLine] else [])).1 [Status.failed] [] := by
   cases hkind : l.kind with
   | other => exact absurd hkind hk
   | update => cases nl <;> simp [stepAction, hkind, readLine, Good, emptyLine]
@@ -114,56 +122,56 @@ theorem stepAction_dangling (l : Line) (hk : l.kind ≠ Kind.other) (nl : Bool) 
   | create => cases nl <;> simp [stepAction, hkind, readLine, Good, emptyLine, remEmpty]
 
 /-- one complete action: one unit of fuel, one item -/
-theorem loop_act (a : Act) (hwf : a.wf) (f : Nat) (s : St) (rest : List Line) :
-    ∃ s', loop (f+1) s (a.lines ++ rest) = loop f s' rest ∧ Good s s' [a.status] a.storedOf := by
+theorem loop_act (env : Env) (a : Act) (hwf : a.wf) (f : Nat) (s : St) (rest : List Line) :
+    ∃ s', loop env (f+1) s (a.lines ++ rest) = loop env f s' rest ∧ Good s s' [a.status env] (a.storedOf env) := by
   cases a with
   | single l =>
     obtain ⟨hk, hl⟩ := hwf
-    obtain ⟨h1, h2⟩ := stepAction_single l hk s rest
-    refine ⟨(stepAction s l rest).1, ?_, h2⟩
-    have := loop_succ l hl f s rest
+    obtain ⟨h1, h2⟩ := stepAction_single env l hk s rest
+    refine ⟨(stepAction env s l rest).1, ?_, h2⟩
+    have := loop_succ env l hl f s rest
     rw [h1] at this
     simpa [Act.lines] using this
   | withDoc x d =>
     obtain ⟨hk, hx, hd⟩ := hwf
-    obtain ⟨h1, h2⟩ := stepAction_withDoc x d hk hd s rest
-    refine ⟨(stepAction s x (d :: rest)).1, ?_, h2⟩
-    have := loop_succ x hx f s (d :: rest)
+    obtain ⟨h1, h2⟩ := stepAction_withDoc env x d hk hd s rest
+    refine ⟨(stepAction env s x (d :: rest)).1, ?_, h2⟩
+    have := loop_succ env x hx f s (d :: rest)
     rw [h1] at this
     simpa [Act.lines] using this
 
 /-- the tail of the body: optional dangling action line, optional trailing newline -/
-theorem loop_tail (dangling : Option Line) (nl : Bool)
+theorem loop_tail (env : Env) (dangling : Option Line) (nl : Bool)
     (hd : ∀ l, dangling = some l → l.kind ≠ Kind.other ∧ 0 < l.len) (f : Nat) (s : St) :
-    Good s (loop (f+1) s (tailOf dangling nl)) (tailItems dangling) [] := by
+    Good s (loop env (f+1) s (tailOf dangling nl)) (tailItems dangling) [] := by
   cases dangling with
   | none => rw [loop_tail_none]; exact Good.refl s
   | some l =>
     obtain ⟨hk, hl⟩ := hd l rfl
-    obtain ⟨h1, h2⟩ := stepAction_dangling l hk nl s
-    have := loop_succ l hl f s (if nl then [emptyLine] else [])
+    obtain ⟨h1, h2⟩ := stepAction_dangling env l hk nl s
+    have := loop_succ env l hl f s (if nl then [emptyLine] else [])
     rw [h1, loop_nil] at this
     have e : tailOf (some l) nl = l :: (if nl then [emptyLine] else []) := by simp [tailOf]
     rw [e, this]
     simpa [tailItems] using h2
 
 /-- the loop invariant: with at least one unit of fuel per action plus one -/
-theorem loop_inv (acts : List Act) (dangling : Option Line) (nl : Bool)
+theorem loop_inv (env : Env) (acts : List Act) (dangling : Option Line) (nl : Bool)
     (hwf : ∀ a ∈ acts, a.wf) (hd : ∀ l, dangling = some l → l.kind ≠ Kind.other ∧ 0 < l.len) :
     ∀ (f : Nat) (s : St), acts.length + 1 ≤ f →
-      Good s (loop f s (acts.flatMap Act.lines ++ tailOf dangling nl))
-        (acts.map Act.status ++ tailItems dangling) (acts.flatMap Act.storedOf) := by
+      Good s (loop env f s (acts.flatMap Act.lines ++ tailOf dangling nl))
+        (acts.map (Act.status env) ++ tailItems dangling) (acts.flatMap (Act.storedOf env)) := by
   induction acts with
   | nil =>
     intro f s hf
     obtain ⟨f', rfl⟩ : ∃ f', f = f' + 1 := ⟨f - 1, by simp at hf; omega⟩
-    simpa using loop_tail dangling nl hd f' s
+    simpa using loop_tail env dangling nl hd f' s
   | cons a acts ih =>
     intro f s hf
     obtain ⟨f', rfl⟩ : ∃ f', f = f' + 1 := ⟨f - 1, by simp at hf; omega⟩
     have hwfa : a.wf := hwf a (by simp)
     have hwf' : ∀ b ∈ acts, b.wf := fun b hb => hwf b (by simp [hb])
-    obtain ⟨s', h1, h2⟩ := loop_act a hwfa f' s (acts.flatMap Act.lines ++ tailOf dangling nl)
+    obtain ⟨s', h1, h2⟩ := loop_act env a hwfa f' s (acts.flatMap Act.lines ++ tailOf dangling nl)
     have h3 := ih hwf' f' s' (by simp at hf; omega)
     have := Good.trans h2 h3
     simp only [List.flatMap_cons, List.map_cons, List.append_assoc]
@@ -176,36 +184,36 @@ theorem length_le_flatMap_lines (acts : List Act) : acts.length ≤ (acts.flatMa
   | cons a acts ih => cases a <;> simp [Act.lines] at ih ⊢ <;> omega
 
 /-- `handle` on a well-formed body, for the duplicated definitions -/
-theorem handle_act (acts : List Act) (dangling : Option Line) (nl : Bool)
+theorem handle_act (env : Env) (acts : List Act) (dangling : Option Line) (nl : Bool)
     (hwf : ∀ a ∈ acts, a.wf) (hd : ∀ l, dangling = some l → l.kind ≠ Kind.other ∧ 0 < l.len) :
-    Good {} (handle (acts.flatMap Act.lines ++ tailOf dangling nl))
-      (acts.map Act.status ++ tailItems dangling) (acts.flatMap Act.storedOf) := by
+    Good {} (handle env (acts.flatMap Act.lines ++ tailOf dangling nl))
+      (acts.map (Act.status env) ++ tailItems dangling) (acts.flatMap (Act.storedOf env)) := by
   unfold handle
-  apply loop_inv acts dangling nl hwf hd
+  apply loop_inv env acts dangling nl hwf hd
   have := length_le_flatMap_lines acts
   simp only [List.length_append]
   omega
 
 /-- Generic form used by `Props/C15.lean`: any action type `α` whose projections factor through
 `Act`.  (`body` is spelled exactly as `bodyOf` unfolds.) -/
-theorem handle_spec {α : Type} (toAct : α → Act)
-    (lines : α → List Line) (wf : α → Prop) (status : α → Status) (storedOf : α → List Nat)
+theorem handle_spec (env : Env) {α : Type} (toAct : α → Act)
+    (lines : α → List Line) (wf : α → Prop) (status : α → Status) (storedOf : α → List (Nat × Nat))
     (hl : ∀ a, lines a = (toAct a).lines) (hw : ∀ a, wf a → (toAct a).wf)
-    (hs : ∀ a, status a = (toAct a).status) (ht : ∀ a, storedOf a = (toAct a).storedOf)
+    (hs : ∀ a, status a = (toAct a).status env) (ht : ∀ a, storedOf a = (toAct a).storedOf env)
     (acts : List α) (dangling : Option Line) (nl : Bool)
     (hwf : ∀ a ∈ acts, wf a) (hd : ∀ l, dangling = some l → l.kind ≠ Kind.other ∧ 0 < l.len) :
-    let r := handle (acts.flatMap lines ++ dangling.toList ++
-      (if nl then [({ kind := .other, len := 0, docOk := false, id := 0 } : Line)] else []))
+    let r := handle env (acts.flatMap lines ++ dangling.toList ++
+      (if nl then [({ kind := .other, len := 0, docOk := false, id := 0, idx := 0 } : Line)] else []))
     let its := acts.map status ++ (dangling.map (fun _ => Status.failed)).toList
-    r.items = its ∧ r.stored = acts.flatMap storedOf ∧
+    r.items = its ∧ r.ples = acts.flatMap storedOf ∧
       r.overallError = its.any (· ≠ Status.created) := by
-  have h := handle_act (acts.map toAct) dangling nl
+  have h := handle_act env (acts.map toAct) dangling nl
     (by intro a ha; obtain ⟨b, hb, rfl⟩ := List.mem_map.1 ha; exact hw b (hwf b hb)) hd
   have e1 : (acts.map toAct).flatMap Act.lines = acts.flatMap lines := by
     rw [List.flatMap_map]; congr 1; funext a; exact (hl a).symm
-  have e2 : (acts.map toAct).map Act.status = acts.map status := by
+  have e2 : (acts.map toAct).map (Act.status env) = acts.map status := by
     rw [List.map_map]; congr 1; funext a; exact (hs a).symm
-  have e3 : (acts.map toAct).flatMap Act.storedOf = acts.flatMap storedOf := by
+  have e3 : (acts.map toAct).flatMap (Act.storedOf env) = acts.flatMap storedOf := by
     rw [List.flatMap_map]; congr 1; funext a; exact (ht a).symm
   rw [e1, e2, e3] at h
   obtain ⟨h1, h2, h3⟩ := h
@@ -216,16 +224,19 @@ theorem handle_spec {α : Type} (toAct : α → Act)
   · simpa using h3
 
 /-- `storedOf` is non-empty exactly for `created` actions -/
-theorem storedOf_ne_nil_iff (a : Act) : a.storedOf ≠ [] ↔ a.status = Status.created := by
+theorem storedOf_ne_nil_iff (env : Env) (a : Act) : a.storedOf env ≠ [] ↔ a.status env = Status.created := by
   cases a with
   | single l => simp [Act.storedOf, Act.status]
   | withDoc x d =>
     by_cases h1 : x.kind = Kind.update
     · simp [Act.storedOf, Act.status, h1]
-    · by_cases h2 : d.len < maxRecordSize
-      · have h2' : ¬ maxRecordSize ≤ d.len := by omega
-        cases h3 : d.docOk <;> simp [Act.storedOf, Act.status, h1, h2, h2', h3]
-      · have h2' : maxRecordSize ≤ d.len := by omega
-        simp [Act.storedOf, Act.status, h1, h2, h2']
+    · cases hv : env.valid x.idx with
+      | false => simp [Act.storedOf, Act.status, h1, hv]
+      | true =>
+        by_cases h2 : d.len < maxRecordSize
+        · have h2' : ¬ maxRecordSize ≤ d.len := by omega
+          cases h3 : d.docOk <;> simp [Act.storedOf, Act.status, h1, hv, h2, h2', h3]
+        · have h2' : maxRecordSize ≤ d.len := by omega
+          simp [Act.storedOf, Act.status, h1, hv, h2, h2']
 
 end SigModel.Lemmas.C15
